@@ -195,6 +195,7 @@ class PathCtx:
             raise PathAbort()
         self.pc.append(cond)
         self.solver.add(cond)
+        self.note_fact(cond)
 
     def note_fact(self, cond):
         """record simple range facts  x <= c / x >= c / x == c  (x an uninterpreted constant) for the interval analysis"""
@@ -495,20 +496,28 @@ def bounds(t, depth=0):
 
 
 def _byte_core(t):
-    """t == ((u div d) mod 256) -> (u, d) ; (u mod 256) -> (u, 1); else None"""
+    """t == ((u div d) mod 256**j) -> (u, d, j) ; (u mod 256**j) -> (u, 1, j); else None"""
     if not z3.is_app(t) or t.decl().kind() != z3.Z3_OP_MOD:
         return None
     m = t.arg(1)
-    if not z3.is_int_value(m) or m.as_long() != 256:
+    if not z3.is_int_value(m):
+        return None
+    mv, j = m.as_long(), 0
+    while mv > 1 and mv % 256 == 0:
+        mv //= 256
+        j += 1
+    if mv != 1 or j == 0:
         return None
     x = t.arg(0)
     if z3.is_app(x) and x.decl().kind() == z3.Z3_OP_IDIV and z3.is_int_value(x.arg(1)) and x.arg(1).as_long() > 0:
-        return x.arg(0), x.arg(1).as_long()
-    return x, 1
+        return x.arg(0), x.arg(1).as_long(), j
+    return x, 1, j
 
 
 def recombine_bytes(t):
-    """rewrite sum_k 256^k * ((u div 256^k) mod 256), k = 0..m-1  into  u mod 256^m  (exact for every integer u)"""
+    """rewrite  sum_k 256^k * ((u div 256^k) mod 256)  (k = 0..m-1, possibly already partly combined) into u mod 256^m,
+    and into u itself when the interval analysis knows 0 <= u < 256^m.  Exact for every integer u.
+    A trailing  256^m * (u div 256^m)  completes the sum to u."""
     t = simp(t)
     if not z3.is_app(t) or t.decl().kind() != z3.Z3_OP_ADD:
         return t
@@ -524,22 +533,39 @@ def recombine_bytes(t):
                 coef, core = a.arg(1).as_long(), a.arg(0)
         bc = _byte_core(core)
         if bc is not None and coef == bc[1]:
-            groups.setdefault(bc[0].get_id(), (bc[0], {}))[1][bc[1]] = a
-        else:
-            rest.append(a)
+            groups.setdefault(bc[0].get_id(), (bc[0], {}, {}))[1][bc[1]] = (bc[2], a)
+            continue
+        # top part: coef * (u div coef)
+        if (coef > 1 and z3.is_app(core) and core.decl().kind() == z3.Z3_OP_IDIV and z3.is_int_value(core.arg(1))
+                and core.arg(1).as_long() == coef):
+            groups.setdefault(core.arg(0).get_id(), (core.arg(0), {}, {}))[2][coef] = a
+            continue
+        rest.append(a)
     changed = False
-    for uid, (u, parts) in groups.items():
-        m = 0
-        while (256 ** m) in parts:
-            m += 1
-        if m >= 2:
-            rest.append(u % I(256 ** m))
-            for d, a in parts.items():
-                if d >= 256 ** m:
+    for uid, (u, parts, tops) in groups.items():
+        d, used = 1, []
+        while d in parts:
+            j, a = parts[d]
+            used.append(d)
+            d = d * 256 ** j
+        if len(used) >= 2 or (len(used) == 1 and d in tops):
+            lo_b, hi_b = bounds(simp(u))
+            if d in tops:
+                rest.append(u)
+                tops = dict(tops)
+                del tops[d]
+            elif lo_b is not None and hi_b is not None and lo_b >= 0 and hi_b < d:
+                rest.append(u)
+            else:
+                rest.append(u % I(d))
+            for dd, (j, a) in parts.items():
+                if dd not in used:
                     rest.append(a)
+            rest.extend(tops.values())
             changed = True
         else:
-            rest.extend(parts.values())
+            rest.extend(a for (j, a) in parts.values())
+            rest.extend(tops.values())
     if not changed:
         return t
     out = rest[0]
